@@ -75,6 +75,80 @@ theorem check_cleanRel (sf : Int → Int) (K : Nat) (hsf : FoldsTo sf K) (fuel :
 /-! ### one iteration of the main loop -/
 
 section
+variable (cfp : Bytes → Option String) (ef : Bytes → Bytes → Bool) (pgv : Bytes → Bytes → Bytes) (sf : Int → Int)
+  (tl : Bytes → Bytes) (vc : Bytes → Bytes → Int) (vl : Bytes → Bytes)
+
+/-- the carried variables of loop 3 as a function of the model's state -/
+def run3 {X : Type}
+    (L : List (Bytes × Unit) → CheckedFiles → List (Bytes × pathInfo) → Int → List File → List Int → M X)
+    (s : Zip.St) : M X :=
+  L (epOf s.errPaths) (embCF s.cf) (ofCC s.cc) s.maxSize (s.validFiles.map toGFile) (s.validFiles.map (·.size))
+
+/-- a call of `addError` followed by the next iteration -/
+theorem ae_run {X : Type} (txt : String) (r : Zip.Reason) (h : reasonText r = txt) (s : Zip.St) (path : Bytes)
+    (omitted : Bool) (fuel : Nat) (vf : List File) (vs : List Int)
+    (L : List (Bytes × Unit) → CheckedFiles → List (Bytes × pathInfo) → Int → List File → List Int → M X) :
+    (Generated.Zip.checkFiles_addError cfp ef pgv sf tl vc vl fuel vf vs path omitted (some txt)
+        (epOf s.errPaths) (embCF s.cf) >>= fun t =>
+      L t.2.1 t.2.2 (ofCC s.cc) s.maxSize (s.validFiles.map toGFile) (s.validFiles.map (·.size))) =
+      run3 L (s.addError path omitted r) := by
+  subst h
+  rw [addError_eq]
+  simp only [bind_ok, run3, addError_cc, addError_maxSize, addError_validFiles]
+
+
+theorem toGFile_ok (f : Zip.FileInfo) (h : (f.mode == Zip.Mode.lstatErr) = false) :
+    toGFile f = { Path := f.path,
+                  Lstat := ({ Mode := modeBits f.mode, IsDir := f.mode == Zip.Mode.dir, Size := f.size }, none),
+                  Open := (f.content, none) } := by
+  simp [toGFile, h]
+
+theorem maxGoMod_cast : ((Zip.MaxGoMod : Nat) : Int) = 16777216 := by decide
+theorem maxLICENSE_cast : ((Zip.MaxLICENSE : Nat) : Int) = 16777216 := by decide
+
+/-- the end of the loop body (the two per-file size limits, then the file is valid) from the state `s2` after the size
+    accounting -/
+theorem sized_tail {X : Type} (s2 : Zip.St) (f : Zip.FileInfo) (gf : File) (hgf : toGFile f = gf) (fuel : Nat)
+    (vf : List File) (vs : List Int)
+    (L : List (Bytes × Unit) → CheckedFiles → List (Bytes × pathInfo) → Int → List File → List Int → M X) :
+    (if (decide (f.path = ([103, 111, 46, 109, 111, 100] : Bytes)) && decide (f.size > (16777216 : Int))) = true then
+        (Generated.Zip.checkFiles_addError cfp ef pgv sf tl vc vl fuel vf vs f.path false (some "errGoModSize")
+          (epOf s2.errPaths) (embCF s2.cf) >>= fun t =>
+        L t.2.1 t.2.2 (ofCC s2.cc) s2.maxSize (s2.validFiles.map toGFile) (s2.validFiles.map (·.size)))
+      else if (decide (f.path = ([76, 73, 67, 69, 78, 83, 69] : Bytes)) && decide (f.size > (16777216 : Int))) = true then
+        (Generated.Zip.checkFiles_addError cfp ef pgv sf tl vc vl fuel vf vs f.path false (some "errLICENSESize")
+          (epOf s2.errPaths) (embCF s2.cf) >>= fun t =>
+        L t.2.1 t.2.2 (ofCC s2.cc) s2.maxSize (s2.validFiles.map toGFile) (s2.validFiles.map (·.size)))
+      else
+        L (epOf s2.errPaths)
+          { Valid := (embCF s2.cf).Valid ++ [f.path], Omitted := (embCF s2.cf).Omitted,
+            Invalid := (embCF s2.cf).Invalid, SizeError := (embCF s2.cf).SizeError }
+          (ofCC s2.cc) s2.maxSize (s2.validFiles.map toGFile ++ [gf]) (s2.validFiles.map (·.size) ++ [f.size])) =
+      run3 L (if f.path == Zip.goModName && f.size > Zip.MaxGoMod then s2.addError f.path false .goModSize
+        else if f.path == Zip.licenseName && f.size > Zip.MaxLICENSE then s2.addError f.path false .licenseSize
+        else s2.pushValid f) := by
+  subst hgf
+  have bA : (decide (f.path = ([103, 111, 46, 109, 111, 100] : Bytes)) && decide (f.size > (16777216 : Int))) =
+      (f.path == Zip.goModName && decide (f.size > (Zip.MaxGoMod : Int))) := by
+    rw [maxGoMod_cast, Bool.beq_eq_decide_eq]; rfl
+  have bB : (decide (f.path = ([76, 73, 67, 69, 78, 83, 69] : Bytes)) && decide (f.size > (16777216 : Int))) =
+      (f.path == Zip.licenseName && decide (f.size > (Zip.MaxLICENSE : Int))) := by
+    rw [maxLICENSE_cast, Bool.beq_eq_decide_eq]; rfl
+  rw [bA, bB]
+  by_cases hA : (f.path == Zip.goModName && decide (f.size > (Zip.MaxGoMod : Int))) = true
+  · rw [if_pos hA, if_pos hA]
+    exact ae_run cfp ef pgv sf tl vc vl _ .goModSize rfl s2 _ _ _ _ _ _
+  rw [if_neg hA, if_neg hA]
+  by_cases hB : (f.path == Zip.licenseName && decide (f.size > (Zip.MaxLICENSE : Int))) = true
+  · rw [if_pos hB, if_pos hB]
+    exact ae_run cfp ef pgv sf tl vc vl _ .licenseSize rfl s2 _ _ _ _ _ _
+  rw [if_neg hB, if_neg hB]
+  simp only [run3, Zip.St.pushValid, List.map_append, List.map_cons, List.map_nil]
+  rfl
+
+end
+
+section
 variable (ef : Bytes → Bytes → Bool) (pgv : Bytes → Bytes → Bytes) (sf : Int → Int)
   (tl : Bytes → Bytes) (vc : Bytes → Bytes → Int) (vl : Bytes → Bytes)
 
@@ -83,22 +157,187 @@ theorem loop3_step (E : Zip.Env) (K : Nat) (hsf : FoldsTo sf K) (hE : E.toFold =
     (vers : Bytes) (ge : Bool) (hge : ge = decide (0 ≤ vc vers go124)) (hgm : List Bytes)
     (done : List Zip.FileInfo) (f : Zip.FileInfo) (rest : List Zip.FileInfo) (fuel : Nat) (s : Zip.St)
     (hfuel : 3 * f.path.length + K + 5 ≤ fuel) :
-    Generated.Zip.checkFiles_loop3 (cfpOf E) ef pgv sf tl vc vl ((done ++ f :: rest).map toGFile) (hgOf hgm) vers
-        (fuel + 1) (done.length : Int) (epOf s.errPaths) (embCF s.cf) (ofCC s.cc) s.maxSize
-        (s.validFiles.map toGFile) (s.validFiles.map (·.size)) =
-      Generated.Zip.checkFiles_loop3 (cfpOf E) ef pgv sf tl vc vl ((done ++ f :: rest).map toGFile) (hgOf hgm) vers
-        fuel ((done.length + 1 : Nat) : Int) (epOf (Zip.stepFile E ge hgm s f).errPaths)
-        (embCF (Zip.stepFile E ge hgm s f).cf) (ofCC (Zip.stepFile E ge hgm s f).cc)
-        (Zip.stepFile E ge hgm s f).maxSize ((Zip.stepFile E ge hgm s f).validFiles.map toGFile)
-        ((Zip.stepFile E ge hgm s f).validFiles.map (·.size)) := by
+    run3 (Generated.Zip.checkFiles_loop3 (cfpOf E) ef pgv sf tl vc vl ((done ++ f :: rest).map toGFile) (hgOf hgm) vers
+        (fuel + 1) (done.length : Int)) s =
+      run3 (Generated.Zip.checkFiles_loop3 (cfpOf E) ef pgv sf tl vc vl ((done ++ f :: rest).map toGFile) (hgOf hgm) vers
+        fuel ((done.length + 1 : Nat) : Int)) (Zip.stepFile E ge hgm s f) := by
+  unfold run3
   rw [Generated.Zip.checkFiles_loop3]
   have hi : ((done.length + 1 : Nat) : Int) = (done.length : Int) + 1 := by omega
   have hv := isVendoredPackage_eq vc f.path vers ge hge
   have hsub := inSubmodule_eq (cfpOf E) ef pgv sf tl vc vl hgm fuel f.path (by omega)
-  simp only [lt_len_map_toGFile, if_true, idxL_map_toGFile, bind_ok, toGFile_Path, hi, hv, hsub]
+  simp only [lt_len_map_toGFile, if_true, idxL_map_toGFile, bind_ok]
+  rw [toGFile_Path]
+  simp only [hi, hv, hsub, bind_ok]
   generalize (done ++ f :: rest).map toGFile = G
-  trace_state
-  sorry
+  generalize hS : Zip.stepFile E ge hgm s f = S
+  have b1 : (!decide (f.path = GoRt.pathClean f.path)) = (f.path != PathClean.pathClean f.path) := by
+    show _ = !(f.path == _)
+    rw [Bool.beq_eq_decide_eq]; rfl
+  have b2 : GoRt.pathIsAbs f.path = PathClean.isAbs f.path := rfl
+  have b5 : decide (f.path = ([46, 104, 103, 95, 97, 114, 99, 104, 105, 118, 97, 108, 46, 116, 120, 116] : Bytes)) =
+      (f.path == Zip.hgArchivalName) := by
+    rw [Bool.beq_eq_decide_eq]; rfl
+  have b6 : (!(cfpOf E f.path).isNone) = !E.cfp f.path := by
+    unfold cfpOf; cases E.cfp f.path <;> rfl
+  have b7 : (decide (tl f.path = ([103, 111, 46, 109, 111, 100] : Bytes)) &&
+      !decide (f.path = ([103, 111, 46, 109, 111, 100] : Bytes))) =
+      (Zip.toLowerIsGoMod f.path && f.path != Zip.goModName) := by
+    have := htl f.path
+    unfold Zip.goModName at this
+    rw [this]
+    congr 1
+    show _ = !(f.path == _)
+    rw [Bool.beq_eq_decide_eq]; rfl
+  simp only [b1, b2, b5, b6, b7]
+  by_cases h1 : (f.path != PathClean.pathClean f.path) = true
+  · have : S = s.addError f.path false .notClean := by rw [← hS, Zip.stepFile, if_pos h1]
+    subst this
+    rw [if_pos h1]
+    exact ae_run (cfpOf E) ef pgv sf tl vc vl _ .notClean rfl s _ _ _ _ _ _
+  rw [if_neg h1]
+  by_cases h2 : PathClean.isAbs f.path = true
+  · have : S = s.addError f.path false .notRelative := by rw [← hS, Zip.stepFile, if_neg h1, if_pos h2]
+    subst this
+    rw [if_pos h2]
+    exact ae_run (cfpOf E) ef pgv sf tl vc vl _ .notRelative rfl s _ _ _ _ _ _
+  rw [if_neg h2]
+  by_cases h3 : Zip.isVendoredPackage f.path ge = true
+  · have : S = s.addError f.path true .vendored := by rw [← hS, Zip.stepFile, if_neg h1, if_neg h2, if_pos h3]
+    subst this
+    rw [if_pos h3]
+    exact ae_run (cfpOf E) ef pgv sf tl vc vl _ .vendored rfl s _ _ _ _ _ _
+  rw [if_neg h3]
+  by_cases h4 : Zip.inSubmodule hgm f.path = true
+  · have : S = s.addError f.path true .submoduleFile := by
+      rw [← hS, Zip.stepFile, if_neg h1, if_neg h2, if_neg h3, if_pos h4]
+    subst this
+    rw [if_pos h4]
+    exact ae_run (cfpOf E) ef pgv sf tl vc vl _ .submoduleFile rfl s _ _ _ _ _ _
+  rw [if_neg h4]
+  by_cases h5 : (f.path == Zip.hgArchivalName) = true
+  · have : S = s.addError f.path true .hgArchival := by
+      rw [← hS, Zip.stepFile, if_neg h1, if_neg h2, if_neg h3, if_neg h4, if_pos h5]
+    subst this
+    rw [if_pos h5]
+    exact ae_run (cfpOf E) ef pgv sf tl vc vl _ .hgArchival rfl s _ _ _ _ _ _
+  rw [if_neg h5]
+  by_cases h6 : (!E.cfp f.path) = true
+  · have : S = s.addError f.path false .filePath := by
+      rw [← hS, Zip.stepFile, if_neg h1, if_neg h2, if_neg h3, if_neg h4, if_neg h5, if_pos h6]
+    subst this
+    have hc : cfpOf E f.path = some "filepath" := by
+      unfold cfpOf
+      cases hcf : E.cfp f.path with
+      | true => rw [hcf] at h6; cases h6
+      | false => rfl
+    rw [if_pos h6, hc]
+    exact ae_run (cfpOf E) ef pgv sf tl vc vl _ .filePath rfl s _ _ _ _ _ _
+  rw [if_neg h6]
+  by_cases h7 : (Zip.toLowerIsGoMod f.path && f.path != Zip.goModName) = true
+  · have : S = s.addError f.path false .goModCase := by
+      rw [← hS, Zip.stepFile, if_neg h1, if_neg h2, if_neg h3, if_neg h4, if_neg h5, if_neg h6, if_pos h7]
+    subst this
+    rw [if_pos h7]
+    exact ae_run (cfpOf E) ef pgv sf tl vc vl _ .goModCase rfl s _ _ _ _ _ _
+  rw [if_neg h7]
+  have hS' : S = Zip.stepStat E s f := by
+    rw [← hS, Zip.stepFile, if_neg h1, if_neg h2, if_neg h3, if_neg h4, if_neg h5, if_neg h6, if_neg h7]
+  clear hS b1 b2 b5 b6 b7 hv hsub
+  subst hS'
+  have hcr : Proofs.ZipA.CleanRel f.path := by
+    constructor
+    · have : ¬ (f.path ≠ PathClean.pathClean f.path) := by simpa using h1
+      exact (Classical.not_not.mp this).symm
+    · simpa using h2
+  have hcc := fun d => check_cleanRel sf K hsf fuel s.cc f.path d hcr hfuel
+  simp only [toGFile]
+  unfold Zip.stepStat
+  rw [hE]
+  by_cases hm : (f.mode == Zip.Mode.lstatErr) = true
+  · simp only [hm, if_true, Option.isNone_some, Bool.not_false]
+    exact ae_run (cfpOf E) ef pgv sf tl vc vl _ .lstat rfl s _ _ _ _ _ _
+  simp only [hm, Bool.false_eq_true, if_false, Option.isNone_none, Bool.not_true, hcc, bind_ok]
+  have hm' : (f.mode == Zip.Mode.lstatErr) = false := by simpa using hm
+  have hmne : f.mode ≠ .lstatErr := by simpa using hm
+  generalize Zip.ccCheckTop Zip.strToFold s.cc f.path (f.mode == Zip.Mode.dir) = r
+  obtain ⟨cc', o⟩ := r
+  cases o with
+  | some e =>
+    simp only [Option.map_some, Option.isNone_some, Bool.not_false, if_true]
+    exact ae_run (cfpOf E) ef pgv sf tl vc vl _ e rfl (s.setCC cc') _ _ _ _ _ _
+  | none =>
+    simp only [Option.map_none, Option.isNone_none, Bool.not_true, Bool.false_eq_true, if_false]
+    have b8 := isSymlink_modeBits f.mode hmne
+    have b9 : (!modeIsRegular (modeBits f.mode)) = (f.mode != .regular) := by
+      rw [modeIsRegular_modeBits _ hmne]; rfl
+    rw [b8, b9]
+    generalize hS : Zip.stepMode (s.setCC cc') f = S
+    by_cases h8 : (f.mode == Zip.Mode.symlink) = true
+    · have : S = (s.setCC cc').addError f.path true .symlink := by rw [← hS, Zip.stepMode, if_pos h8]
+      subst this
+      rw [if_pos h8]
+      exact ae_run (cfpOf E) ef pgv sf tl vc vl _ .symlink rfl (s.setCC cc') _ _ _ _ _ _
+    rw [if_neg h8]
+    by_cases h9 : (f.mode != Zip.Mode.regular) = true
+    · have : S = (s.setCC cc').addError f.path true .notRegular := by
+        rw [← hS, Zip.stepMode, if_neg h8, if_pos h9]
+      subst this
+      rw [if_pos h9]
+      exact ae_run (cfpOf E) ef pgv sf tl vc vl _ .notRegular rfl (s.setCC cc') _ _ _ _ _ _
+    rw [if_neg h9]
+    have hS' : S = Zip.stepSized (s.setCC cc') f := by rw [← hS, Zip.stepMode, if_neg h8, if_neg h9]
+    subst hS'
+    clear hS
+    have hgf := toGFile_ok f hm'
+    have key := fun s2 => sized_tail (cfpOf E) ef pgv sf tl vc vl s2 f _ hgf fuel
+      (List.map toGFile s.validFiles) (List.map (fun x => x.size) s.validFiles)
+      (Generated.Zip.checkFiles_loop3 (cfpOf E) ef pgv sf tl vc vl G (hgOf hgm) vers fuel ((done.length : Int) + 1))
+    have hstep : Zip.stepSized (s.setCC cc') f =
+        (if f.path == Zip.goModName && f.size > Zip.MaxGoMod then
+            ((s.setCC cc').account f.size).addError f.path false .goModSize
+          else if f.path == Zip.licenseName && f.size > Zip.MaxLICENSE then
+            ((s.setCC cc').account f.size).addError f.path false .licenseSize
+          else ((s.setCC cc').account f.size).pushValid f) := rfl
+    by_cases hA : (decide (f.size ≥ 0) && decide (f.size ≤ s.maxSize)) = true
+    · rw [if_pos hA]
+      have hacc : (s.setCC cc').account f.size = { s.setCC cc' with maxSize := s.maxSize - f.size } := by
+        unfold Zip.St.account
+        have hA' : 0 ≤ f.size ∧ f.size ≤ s.maxSize := by simpa using hA
+        rw [if_pos (show 0 ≤ f.size ∧ f.size ≤ (s.setCC cc').maxSize from hA')]
+        rfl
+      have := key ((s.setCC cc').account f.size)
+      rw [← hstep, hacc] at this
+      exact this
+    rw [if_neg hA]
+    have hnacc : ¬ (0 ≤ f.size ∧ f.size ≤ (s.setCC cc').maxSize) := by
+      intro h
+      have h' : 0 ≤ f.size ∧ f.size ≤ s.maxSize := h
+      apply hA; simpa using h'
+    by_cases hB : s.cf.sizeError = true
+    · have hnone : ((embCF s.cf).SizeError.isNone) = false := by simp [embCF, hB]
+      simp only [hnone, Bool.false_eq_true, if_false]
+      have hacc : (s.setCC cc').account f.size = s.setCC cc' := by
+        unfold Zip.St.account
+        rw [if_neg hnacc]
+        obtain ⟨⟨v, om, iv, se⟩, ep, vfs, cc, ms⟩ := s
+        simp only at hB
+        subst hB
+        rfl
+      have := key ((s.setCC cc').account f.size)
+      rw [← hstep, hacc] at this
+      exact this
+    · have hB' : s.cf.sizeError = false := by simpa using hB
+      have hnone : ((embCF s.cf).SizeError.isNone) = true := by simp [embCF, hB']
+      simp only [hnone, if_true]
+      have hacc : (s.setCC cc').account f.size =
+          { s.setCC cc' with cf := { s.cf with sizeError := true } } := by
+        unfold Zip.St.account
+        rw [if_neg hnacc]
+        rfl
+      have := key ((s.setCC cc').account f.size)
+      rw [← hstep, hacc] at this
+      exact this
 end
 
 end ModVerif.TieFnZipCf
